@@ -6,6 +6,7 @@ import (
 	"strconv"
 	"strings"
 
+	"gitlab.com/aquachain/aquachain/aquadb"
 	"gitlab.com/aquachain/aquachain/common"
 	"gitlab.com/aquachain/aquachain/core"
 	"gitlab.com/aquachain/aquachain/core/state"
@@ -150,6 +151,9 @@ type replayer struct {
 	headHist []common.Hash
 	roots    []*types.Block         // every block of the tree plus genesis
 	last     map[string]interface{} // what the latest checkPrefix saw (for evidence samples)
+	// open returns the database to reopen for the current prefix (nil: a fresh
+	// MemDatabase built from the view)
+	open func() aquadb.Database
 }
 
 func newReplayer(a *analysis) *replayer {
@@ -284,7 +288,12 @@ func (r *replayer) checkPrefix(s sink, op string, refeed bool) {
 	}
 
 	// reopen
-	db := journaldb.ToMem(r.view)
+	var db aquadb.Database
+	if r.open != nil {
+		db = r.open()
+	} else {
+		db = journaldb.ToMem(r.view)
+	}
 	core.VerifC04ResetLastWrite()
 	var bc *core.BlockChain
 	var err error
